@@ -1,8 +1,368 @@
 /-
 Proofs/Heap — helper lemmas for C08, C19, C03Heap.
+
+Layout: (1) list facts; (2) `getD` on heaps; (3) `AppSpec`, the specification of a
+sequence of appends to one slice (length of the heap, validity of the result, what the
+result reads, frame for every other slice, footprint), with reflexivity, transitivity and
+the single `append`; (4) the fold of `step`/`payloadPinned` and `appendAll`-style
+recursion satisfy `AppSpec`; (5) `Owned` in membership form and the list facts about
+`Nodup` it needs.
 -/
 import BiscuitModel.Model.Heap
 
 namespace Biscuit.Heap
+
+variable {α : Type}
+
+/-! ### List facts -/
+
+theorem take_set_ge {β : Type} {l : List β} {n i : Nat} (x : β) (h : n ≤ i) :
+    (l.set i x).take n = l.take n :=
+  List.take_set_of_le h
+
+theorem take_succ_set {β : Type} {l : List β} {i : Nat} (x : β) (h : i < l.length) :
+    (l.set i x).take (i + 1) = l.take i ++ [x] := by
+  rw [List.take_add_one, take_set_ge x (Nat.le_refl i), List.getElem?_set_self h]
+  rfl
+
+theorem set_of_getElem? {β : Type} {l : List β} {i : Nat} {v : β} (h : l[i]? = some v) :
+    l.set i v = l := by
+  induction l generalizing i with
+  | nil => rfl
+  | cons a l ih =>
+    cases i with
+    | zero => simp at h; simp [h]
+    | succ i => simp at h; simp [ih h]
+
+theorem nodup_set_of_not_mem {β : Type} {l : List β} {i : Nat} {v : β} (hn : l.Nodup)
+    (hv : v ∉ l) : (l.set i v).Nodup := by
+  induction l generalizing i with
+  | nil => simp
+  | cons a l ih =>
+    rw [List.nodup_cons] at hn
+    rw [List.mem_cons, not_or] at hv
+    cases i with
+    | zero =>
+      rw [List.set_cons_zero, List.nodup_cons]
+      exact ⟨hv.2, hn.2⟩
+    | succ i =>
+      rw [List.set_cons_succ, List.nodup_cons]
+      refine ⟨fun hm => ?_, ih hn.2 hv.2⟩
+      rcases List.mem_or_eq_of_mem_set hm with hm | hm
+      · exact hn.1 hm
+      · exact hv.1 hm.symm
+
+/-- Two positions of a list whose image under `f` has no duplicates have distinct images. -/
+theorem map_nodup_ne {β γ : Type} {f : β → γ} {l : List β} (hn : (l.map f).Nodup) {i j : Nat}
+    {a b : β} (ha : l[i]? = some a) (hb : l[j]? = some b) (hij : i ≠ j) : f a ≠ f b := by
+  intro he
+  have hi : i < (l.map f).length := by
+    rw [List.length_map]
+    exact (List.getElem?_eq_some_iff.mp ha).1
+  have : (l.map f)[i]? = (l.map f)[j]? := by
+    rw [List.getElem?_map, List.getElem?_map, ha, hb]
+    simp [he]
+  exact hij ((List.getElem?_inj hi hn).mp this)
+
+/-! ### Heaps -/
+
+theorem getD_set_self {h : Heap α} {i : Nat} (a : List α) (hi : i < h.length) :
+    (h.set i a).getD i [] = a := by
+  simp [List.getD_eq_getElem?_getD, hi]
+
+theorem getD_set_ne {h : Heap α} {i j : Nat} (a : List α) (hij : i ≠ j) :
+    (h.set i a).getD j [] = h.getD j [] := by
+  simp [List.getD_eq_getElem?_getD, List.getElem?_set_ne hij]
+
+theorem getD_append_left {h : Heap α} {j : Nat} (a : Heap α) (hj : j < h.length) :
+    (h ++ a).getD j [] = h.getD j [] := by
+  simp [List.getD_eq_getElem?_getD, List.getElem?_append_left hj]
+
+theorem getD_append_length (h : Heap α) (a : List α) : (h ++ [a]).getD h.length [] = a := by
+  simp [List.getD_eq_getElem?_getD]
+
+theorem getD_of_length_le {h : Heap α} {i : Nat} (hi : h.length ≤ i) : h.getD i [] = [] := by
+  simp [List.getD_eq_getElem?_getD, List.getElem?_eq_none hi]
+
+/-- A slice is valid: its array is allocated and its length within capacity. -/
+def Valid (h : Heap α) (s : Slice) : Prop := s.arr < h.length ∧ s.len ≤ cap h s
+
+theorem length_read {h : Heap α} {s : Slice} (hl : s.len ≤ cap h s) : (read h s).length = s.len := by
+  unfold read
+  rw [List.length_take]
+  exact Nat.min_eq_left hl
+
+theorem append_inplace (grow : Nat → Nat) (pad : α) (h : Heap α) (s : Slice) (x : α)
+    (hc : s.len < cap h s) :
+    append grow pad h s x =
+      (h.set s.arr ((h.getD s.arr []).set s.len x), { s with len := s.len + 1 },
+        [{ arr := s.arr, idx := s.len, write := true }]) := by
+  unfold append
+  rw [if_pos hc]
+
+theorem append_realloc (grow : Nat → Nat) (pad : α) (h : Heap α) (s : Slice) (x : α)
+    (hc : ¬ s.len < cap h s) :
+    append grow pad h s x =
+      (h ++ [read h s ++ [x] ++ List.replicate (grow s.len - (s.len + 1)) pad],
+        { arr := h.length, len := s.len + 1 },
+        (List.range (s.len + 1)).map fun i => { arr := h.length, idx := i, write := true }) := by
+  unfold append
+  rw [if_neg hc]
+
+/-! ### Specification of a run of appends to one slice -/
+
+/-- From heap `h` and slice `s`, appending `xs` gave heap `h'`, slice `s'`, and extended
+the write log from `w0` to `w`. -/
+structure AppSpec (h : Heap α) (s : Slice) (xs : List α) (w0 : List Access)
+    (h' : Heap α) (s' : Slice) (w : List Access) : Prop where
+  len_le : h.length ≤ h'.length
+  valid : Valid h' s'
+  read_self : read h' s' = read h s ++ xs
+  arr : (s'.arr = s.arr ∧ s.len ≤ s'.len) ∨ h.length ≤ s'.arr
+  frame : ∀ t : Slice, t.arr < h.length → (t.arr ≠ s.arr ∨ t.len ≤ s.len) → read h' t = read h t
+  cap_eq : ∀ t : Slice, t.arr < h.length → cap h' t = cap h t
+  writes : ∀ a ∈ w, a ∈ w0 ∨ (a.write = true ∧ (a.arr = s.arr ∨ h.length ≤ a.arr))
+
+theorem AppSpec.refl {h : Heap α} {s : Slice} (hv : Valid h s) (w0 : List Access) :
+    AppSpec h s [] w0 h s w0 where
+  len_le := Nat.le_refl _
+  valid := hv
+  read_self := by simp
+  arr := Or.inl ⟨rfl, Nat.le_refl _⟩
+  frame := fun _ _ _ => rfl
+  cap_eq := fun _ _ => rfl
+  writes := fun _ ha => Or.inl ha
+
+theorem AppSpec.trans {h h1 h2 : Heap α} {s s1 s2 : Slice} {xs ys : List α}
+    {w0 w1 w2 : List Access} (a : AppSpec h s xs w0 h1 s1 w1) (b : AppSpec h1 s1 ys w1 h2 s2 w2) :
+    AppSpec h s (xs ++ ys) w0 h2 s2 w2 where
+  len_le := Nat.le_trans a.len_le b.len_le
+  valid := b.valid
+  read_self := by rw [b.read_self, a.read_self, List.append_assoc]
+  arr := by
+    have h1 := a.arr; have h2 := b.arr; have h3 := a.len_le
+    omega
+  frame := by
+    intro t ht hc
+    have h1 := a.arr
+    rw [b.frame t (Nat.lt_of_lt_of_le ht a.len_le) (by omega), a.frame t ht hc]
+  cap_eq := by
+    intro t ht
+    rw [b.cap_eq t (Nat.lt_of_lt_of_le ht a.len_le), a.cap_eq t ht]
+  writes := by
+    intro e he
+    rcases b.writes e he with he | ⟨hw, he⟩
+    · exact a.writes e he
+    · refine Or.inr ⟨hw, ?_⟩
+      have h1 := a.arr; have h3 := a.len_le
+      omega
+
+/-- One `append`. -/
+theorem append_spec (grow : Nat → Nat) (hg : ∀ n, grow n > n) (pad : α) {h : Heap α} {s : Slice}
+    (hv : Valid h s) (x : α) (w0 : List Access) :
+    AppSpec h s [x] w0 (append grow pad h s x).1 (append grow pad h s x).2.1
+      (w0 ++ (append grow pad h s x).2.2) := by
+  obtain ⟨hs, hl⟩ := hv
+  by_cases hc : s.len < cap h s
+  · rw [append_inplace grow pad h s x hc]
+    have hc' : s.len < (h.getD s.arr []).length := hc
+    refine ⟨by simp, ⟨by simpa using hs, ?_⟩, ?_, Or.inl ⟨rfl, Nat.le_succ _⟩, ?_, ?_, ?_⟩
+    · show s.len + 1 ≤ cap _ _
+      unfold cap
+      simp only [getD_set_self _ hs, List.length_set]
+      exact hc
+    · show read _ _ = _
+      unfold read
+      simp only [getD_set_self _ hs]
+      exact take_succ_set x hc'
+    · intro t _ htc
+      unfold read
+      by_cases hts : t.arr = s.arr
+      · have : t.len ≤ s.len := by omega
+        rw [hts, getD_set_self _ hs, take_set_ge x this]
+      · rw [getD_set_ne _ (Ne.symm hts)]
+    · intro t _
+      unfold cap
+      by_cases hts : t.arr = s.arr
+      · rw [hts, getD_set_self _ hs, List.length_set]
+      · rw [getD_set_ne _ (Ne.symm hts)]
+    · intro a ha
+      rw [List.mem_append] at ha
+      rcases ha with ha | ha
+      · exact Or.inl ha
+      · simp only [List.mem_singleton] at ha
+        subst ha
+        exact Or.inr ⟨rfl, Or.inl rfl⟩
+  · rw [append_realloc grow pad h s x hc]
+    have hlen : (read h s).length = s.len := length_read hl
+    refine ⟨by simp, ⟨by simp, ?_⟩, ?_, Or.inr (Nat.le_refl _), ?_, ?_, ?_⟩
+    · show s.len + 1 ≤ cap _ _
+      unfold cap
+      simp only [getD_append_length, List.length_append, List.length_replicate, hlen,
+        List.length_singleton]
+      have := hg s.len
+      omega
+    · show read _ _ = _
+      show List.take (s.len + 1) ((h ++ [_]).getD h.length []) = _
+      rw [getD_append_length, List.take_append]
+      have : (read h s ++ [x]).length = s.len + 1 := by simp [hlen]
+      rw [List.take_of_length_le (Nat.le_of_eq this), this, Nat.sub_self, List.take_zero,
+        List.append_nil]
+    · intro t ht _
+      unfold read
+      rw [getD_append_left _ ht]
+    · intro t ht
+      unfold cap
+      rw [getD_append_left _ ht]
+    · intro a ha
+      rw [List.mem_append] at ha
+      rcases ha with ha | ha
+      · exact Or.inl ha
+      · simp only [List.mem_map] at ha
+        obtain ⟨i, _, rfl⟩ := ha
+        exact Or.inr ⟨rfl, Or.inr (Nat.le_refl _)⟩
+
+/-- The accumulating fold used by `step (.appendToken ..)` and `payloadPinned`. -/
+def appFold (grow : Nat → Nat) (pad : α) (acc : Heap α × Slice × List Access) (xs : List α) :
+    Heap α × Slice × List Access :=
+  xs.foldl (fun (acc : Heap α × Slice × List Access) x =>
+    let a := append grow pad acc.1 acc.2.1 x
+    (a.1, a.2.1, acc.2.2 ++ a.2.2)) acc
+
+theorem appFold_spec (grow : Nat → Nat) (hg : ∀ n, grow n > n) (pad : α) {h : Heap α} {s : Slice}
+    (hv : Valid h s) (w0 : List Access) (xs : List α) :
+    AppSpec h s xs w0 (appFold grow pad (h, s, w0) xs).1 (appFold grow pad (h, s, w0) xs).2.1
+      (appFold grow pad (h, s, w0) xs).2.2 := by
+  induction xs generalizing h s w0 with
+  | nil => exact AppSpec.refl hv w0
+  | cons x xs ih =>
+    have a := append_spec grow hg pad hv x w0
+    have b := ih a.valid (w0 ++ (append grow pad h s x).2.2)
+    exact AppSpec.trans a b
+
+theorem AppSpec.forget {h h' : Heap α} {s s' : Slice} {xs : List α} {w0 w : List Access}
+    (a : AppSpec h s xs w0 h' s' w) : AppSpec h s xs [] h' s' [] :=
+  { a with writes := fun _ ha => Or.inl ha }
+
+/-- `appendAll` of Props/C03Heap (same recursion, stated here so that its specification
+can live under Proofs/). -/
+def appendAllG (grow : Nat → Nat) (pad : α) (h : Heap α) (s : Slice) : List α → Heap α × Slice
+  | [] => (h, s)
+  | x :: xs => let r := append grow pad h s x; appendAllG grow pad r.1 r.2.1 xs
+
+theorem appendAllG_spec (grow : Nat → Nat) (hg : ∀ n, grow n > n) (pad : α) {h : Heap α} {s : Slice}
+    (hv : Valid h s) (xs : List α) :
+    AppSpec h s xs [] (appendAllG grow pad h s xs).1 (appendAllG grow pad h s xs).2 [] := by
+  induction xs generalizing h s with
+  | nil => exact AppSpec.refl hv []
+  | cons x xs ih =>
+    have a := (append_spec grow hg pad hv x []).forget
+    exact AppSpec.trans a (ih a.valid)
+
+/-! ### Deep clone and pure extensions -/
+
+/-- `h'` extends `h`: every allocated array of `h` is still there with the same cells. -/
+def Ext (h h' : Heap α) : Prop :=
+  h.length ≤ h'.length ∧ ∀ t : Slice, t.arr < h.length → read h' t = read h t ∧ cap h' t = cap h t
+
+theorem Ext.refl (h : Heap α) : Ext h h := ⟨Nat.le_refl _, fun _ _ => ⟨rfl, rfl⟩⟩
+
+theorem Ext.trans {h h1 h2 : Heap α} (a : Ext h h1) (b : Ext h1 h2) : Ext h h2 :=
+  ⟨Nat.le_trans a.1 b.1, fun t ht => by
+    have h1 := b.2 t (Nat.lt_of_lt_of_le ht a.1)
+    have h2 := a.2 t ht
+    exact ⟨h1.1.trans h2.1, h1.2.trans h2.2⟩⟩
+
+theorem Ext.valid {h h' : Heap α} (e : Ext h h') {t : Slice} (hv : Valid h t) : Valid h' t :=
+  ⟨Nat.lt_of_lt_of_le hv.1 e.1, by rw [(e.2 t hv.1).2]; exact hv.2⟩
+
+theorem ext_append (h : Heap α) (a : Heap α) : Ext h (h ++ a) :=
+  ⟨by simp, fun t ht => by unfold read cap; rw [getD_append_left _ ht]; exact ⟨rfl, rfl⟩⟩
+
+theorem cloneDeep_valid {h : Heap α} {s : Slice} (hv : Valid h s) :
+    Valid (h ++ [read h s]) { arr := h.length, len := s.len } := by
+  refine ⟨by simp, ?_⟩
+  unfold cap
+  simp only [getD_append_length, length_read hv.2]
+  exact Nat.le_refl _
+
+theorem cloneDeep_read {h : Heap α} {s : Slice} :
+    read (h ++ [read h s]) { arr := h.length, len := s.len } = read h s := by
+  show List.take s.len ((h ++ [read h s]).getD h.length []) = _
+  rw [getD_append_length]
+  unfold read
+  rw [List.take_take, Nat.min_self]
+
+/-- Appends to a slice living in the array `k ≥ h0.length` of `h` extend `h0`. -/
+theorem AppSpec.ext {h0 h h' : Heap α} {s s' : Slice} {xs : List α} {w0 w : List Access}
+    (a : AppSpec h s xs w0 h' s' w) (e : Ext h0 h) (hk : h0.length ≤ s.arr) : Ext h0 h' :=
+  ⟨Nat.le_trans e.1 a.len_le, fun t ht => by
+    have ht' : t.arr < h.length := Nat.lt_of_lt_of_le ht e.1
+    have h2 := e.2 t ht
+    exact ⟨(a.frame t ht' (Or.inl (by omega))).trans h2.1, (a.cap_eq t ht').trans h2.2⟩⟩
+
+theorem AppSpec.fresh {h0 h h' : Heap α} {s s' : Slice} {xs : List α} {w0 w : List Access}
+    (a : AppSpec h s xs w0 h' s' w) (e : Ext h0 h) (hk : h0.length ≤ s.arr) : h0.length ≤ s'.arr := by
+  have h1 := a.arr; have h2 := e.1
+  omega
+
+theorem AppSpec.writes_fresh {h0 h h' : Heap α} {s s' : Slice} {xs : List α} {w0 w : List Access}
+    (a : AppSpec h s xs w0 h' s' w) (e : Ext h0 h) (hk : h0.length ≤ s.arr) :
+    ∀ c ∈ w, c ∈ w0 ∨ h0.length ≤ c.arr := by
+  intro c hc
+  rcases a.writes c hc with hc | ⟨_, hc⟩
+  · exact Or.inl hc
+  · have h2 := e.1
+    exact Or.inr (by omega)
+
+theorem AppSpec.valid_of {h h' : Heap α} {s s' : Slice} {xs : List α} {w0 w : List Access}
+    (a : AppSpec h s xs w0 h' s' w) {t : Slice} (hv : Valid h t) : Valid h' t :=
+  ⟨Nat.lt_of_lt_of_le hv.1 a.len_le, by rw [a.cap_eq t hv.1]; exact hv.2⟩
+
+/-! ### `Owned` in membership form -/
+
+theorem owned_iff (st : State α) : Owned st ↔
+    (st.tokens.map (·.arr) ++ st.builders.map (·.1.arr)).Nodup ∧
+    (∀ s ∈ st.tokens, Valid st.heap s) ∧ (∀ b ∈ st.builders, Valid st.heap b.1) := by
+  unfold Owned Valid
+  simp only [List.map_append, List.map_map, List.mem_append, List.mem_map]
+  constructor
+  · rintro ⟨hn, hv⟩
+    exact ⟨hn, fun s hs => hv s (Or.inl hs), fun b hb => hv b.1 (Or.inr ⟨b, hb, rfl⟩)⟩
+  · rintro ⟨hn, ht, hb⟩
+    refine ⟨hn, fun s hs => ?_⟩
+    rcases hs with hs | ⟨b, hb', rfl⟩
+    · exact ht s hs
+    · exact hb b hb'
+
+theorem fresh_not_mem {st : State α} (ht : ∀ s ∈ st.tokens, Valid st.heap s)
+    (hb : ∀ b ∈ st.builders, Valid st.heap b.1) {k : Nat} (hk : st.heap.length ≤ k) :
+    k ∉ st.tokens.map (·.arr) ++ st.builders.map (·.1.arr) := by
+  simp only [List.mem_append, List.mem_map, not_or, not_exists, not_and]
+  refine ⟨fun s hs he => ?_, fun b hb' he => ?_⟩
+  · have := (ht s hs).1; omega
+  · have := (hb b hb').1; omega
+
+theorem append_set_eq {β : Type} (l1 l2 : List β) (i : Nat) (v : β) :
+    l1 ++ l2.set i v = (l1 ++ l2).set (l1.length + i) v := by
+  rw [List.set_append, if_neg (by omega), Nat.add_sub_cancel_left]
+
+/-! ### What `createBlock` and `addSymbol` produce (repaired `Clone`) -/
+
+theorem step_createBlock_spec (grow : Nat → Nat) (pad : α) {st : State α} {t : Nat} {s : Slice}
+    (hs : st.tokens[t]? = some s) :
+    ∃ b, (step true grow pad st (.createBlock t)).1.builders = st.builders ++ [(b, s.len)] ∧
+      read (step true grow pad st (.createBlock t)).1.heap b = read st.heap s := by
+  simp only [step, hs, cloneDeep, if_true]
+  exact ⟨_, rfl, cloneDeep_read⟩
+
+theorem step_addSymbol_spec (grow : Nat → Nat) (hg : ∀ n, grow n > n) (pad : α) {st : State α}
+    (h : Owned st) {n : Nat} {b : Slice} {k : Nat} (hb : st.builders[n]? = some (b, k)) (x : α) :
+    ∃ b', (step true grow pad st (.addSymbol n x)).1.builders[n]? = some (b', k) ∧
+      read (step true grow pad st (.addSymbol n x)).1.heap b' = read st.heap b ++ [x] := by
+  have hv : Valid st.heap b := ((owned_iff st).mp h).2.2 (b, k) (List.mem_of_getElem? hb)
+  simp only [step, hb]
+  exact ⟨_, List.getElem?_set_self (List.getElem?_eq_some_iff.mp hb).1,
+    (append_spec grow hg pad hv x []).read_self⟩
 
 end Biscuit.Heap
